@@ -56,68 +56,318 @@ def export_and_recompile(doc, fmt, strip, numbered):
         shutil.rmtree(d, ignore_errors=True)
 
 
-def shared_category(flow):
-    """a switch router in which two cases name the same category (the exporter writes one edge per category)"""
-    for n in flow["nodes"]:
-        r = n.get("router")
-        if r and r.get("type") == "switch":
-            cats = [k["category_uuid"] for k in r.get("cases", [])]
-            if len(cats) != len(set(cats)):
-                return True
-    return False
+# ---------------------------------------------------------------- counterfactual classification
+# A failing round trip is attributed to a listed finding K only when it is EXPLAINED by K: the
+# recompiled flow is behaviourally equal (verified checker) to the original flow with exactly the
+# loss K is known to cause applied to it (`lose_K`), and K is reported only if its loss was
+# needed.  Predicates on the input ("the flow has an unconnected case") are never enough: any other
+# difference in such a flow stays an unlisted VIOLATION.
+
+def node_kind(n):
+    """the node class BaseNode.from_dict chooses"""
+    r = n.get("router")
+    if not r:
+        return "basic"
+    if r.get("type") == "random":
+        return "random"
+    acts = n.get("actions") or []
+    return acts[0].get("type", "?") if acts else "switch"
 
 
-def unconnected_case(flow):
-    """a router case whose category's exit leads nowhere (the exporter cannot express it)"""
-    for n in flow["nodes"]:
+def _copy(flow):
+    return json.loads(json.dumps(flow))
+
+
+def _prune_exits(n):
+    used = {c["exit_uuid"] for c in n["router"]["categories"]}
+    n["exits"] = [e for e in n["exits"] if e["uuid"] in used]
+
+
+def lose_unconnected(flow, table):
+    """cases (and random buckets) whose category leads nowhere are not exported: they are gone"""
+    f = _copy(flow)
+    for n in f["nodes"]:
+        k = node_kind(n)
+        if k not in ("switch", "random"):
+            continue
+        r = n["router"]
+        dest = {e["uuid"]: e.get("destination_uuid") for e in n["exits"]}
+        dead = {c["uuid"] for c in r["categories"] if not dest.get(c["exit_uuid"])}
+        if k == "random":
+            r["categories"] = [c for c in r["categories"] if c["uuid"] not in dead]
+        else:
+            keep = {r.get("default_category_uuid"), ((r.get("wait") or {}).get("timeout") or {}).get("category_uuid")}
+            r["cases"] = [c for c in r["cases"] if c["category_uuid"] not in dead]
+            r["categories"] = [c for c in r["categories"] if c["uuid"] not in dead or c["uuid"] in keep]
+        _prune_exits(n)
+    return f
+
+
+def lose_result_name(flow, table):
+    """only wait_for_response rows carry save_name: the other routers come back without a result name"""
+    f = _copy(flow)
+    for n in f["nodes"]:
+        k = node_kind(n)
+        if k == "random" or (k == "switch" and "wait" not in n["router"]):
+            n["router"].pop("result_name", None)
+    return f
+
+
+def lose_shared_category(flow, table):
+    """get_exit_edge_pairs walks the CATEGORIES and exports the first case of each: a second case of a
+    category is gone and the tests come back in category order (others, default, no response)"""
+    f = _copy(flow)
+    for n in f["nodes"]:
+        if node_kind(n) != "switch":
+            continue
+        r = n["router"]
+        dflt = r.get("default_category_uuid")
+        nr = ((r.get("wait") or {}).get("timeout") or {}).get("category_uuid")
+        order = [c["uuid"] for c in r["categories"] if c["uuid"] not in (dflt, nr)] + [dflt] + ([nr] if nr else [])
+        cases = []
+        for cu in order:
+            first = next((k for k in r["cases"] if k["category_uuid"] == cu), None)
+            if first is not None:
+                cases.append(first)
+        r["cases"] = cases
+    return f
+
+
+def body_shadowed(table):
+    """the exported sheet has a webhook.body column AND, after it, a message_text column (blank on webhook rows)"""
+    if not table:
+        return False
+    h = table[0]
+    return "webhook.body" in h and "message_text" in h and h.index("message_text") > h.index("webhook.body")
+
+
+def lose_webhook_body(flow, table):
+    f = _copy(flow)
+    if body_shadowed(table):
+        for n in f["nodes"]:
+            for a in n.get("actions", []):
+                if a.get("type") == "call_webhook" and a.get("body"):
+                    a["body"] = ""
+    return f
+
+
+def lose_group_category_name(flow, table):
+    """the condition of a has_group edge of a group split carries the group name only: the category comes
+    back under the name FlowParser generates for it"""
+    f = _copy(flow)
+    for n in f["nodes"]:
+        if node_kind(n) == "switch" and n["router"].get("operand") == "@contact.groups":
+            cats = {c["uuid"]: c for c in n["router"]["categories"]}
+            for k in n["router"]["cases"]:
+                if k["type"] == "has_group" and len(k["arguments"]) > 1 and k["category_uuid"] in cats \
+                        and k["category_uuid"] != n["router"].get("default_category_uuid"):
+                    cats[k["category_uuid"]]["name"] = "_".join(str(a).title() for a in [None, k["arguments"][1]])
+    return f
+
+
+def canon_order(flow):
+    """the tests of a router / the buckets of a random split in a canonical order (comparison modulo order)"""
+    f = _copy(flow)
+    for n in f["nodes"]:
         r = n.get("router")
         if not r:
             continue
-        exits = {e["uuid"]: e.get("destination_uuid") for e in n["exits"]}
-        cats = {c["uuid"]: c for c in r["categories"]}
-        if r["type"] == "random":
-            if any(exits.get(c["exit_uuid"]) is None for c in r["categories"]):
-                return True
-            continue
-        for c in r["categories"]:
-            if c["uuid"] == r.get("default_category_uuid"):
-                continue
-            if exits.get(c["exit_uuid"]) is None:
-                return True
-    return False
+        names = {c["uuid"]: c["name"] for c in r["categories"]}
+        if r.get("type") == "random":
+            r["categories"] = sorted(r["categories"], key=lambda c: c["name"])
+        else:
+            r["cases"] = sorted(r.get("cases", []), key=lambda k: json.dumps(
+                [k["type"], k["arguments"][1:] if k["type"] == "has_group" else k["arguments"], names.get(k["category_uuid"])]))
+    return f
+
+
+ORDER_KEY = "case-order-follows-row-order"
+# (finding key, loss); applied in this order.  The order finding is an equivalence, not a loss: both
+# sides are compared with their tests in a canonical order.
+LOSSES = [
+    ("unconnected-non-default-category", lose_unconnected),
+    ("split-result-name-lost", lose_result_name),
+    ("cases-sharing-a-category", lose_shared_category),
+    ("webhook-body-shadowed", lose_webhook_body),
+    ("group-split-category-name-lost", lose_group_category_name),
+]
+
+
+def apply_losses(flow, table, keys):
+    for k, fn in LOSSES:
+        if k in keys:
+            flow = fn(flow, table)
+    return flow
+
+
+def bisim(model, a, b):
+    if model:
+        return model.ask("(6 2 %s %s)" % (flowutil.flow_sexp(a), flowutil.flow_sexp(b))) == "1"
+    return flowutil.distinguishing_trace(a, b) is None
+
+
+def explain(model, flow, f2, table):
+    """the smallest set of listed losses (first in the fixed order) under which the original flow is
+    behaviourally equal to the recompiled one: [] = equal as they are, None = not explained"""
+    import itertools
+
+    if bisim(model, flow, f2):
+        return []
+    same = json.dumps(flow, sort_keys=True)
+    cand = [k for k, fn in LOSSES if json.dumps(fn(flow, table), sort_keys=True) != same]
+    multi = any(len((n.get("router") or {}).get("cases", [])) > 1 or
+                ((n.get("router") or {}).get("type") == "random" and len(n["router"]["categories"]) > 1) for n in flow["nodes"])
+    if multi:
+        cand.append(ORDER_KEY)
+    g2 = None
+    for size in range(1, len(cand) + 1):
+        for keys in itertools.combinations(cand, size):
+            a = apply_losses(flow, table, keys)
+            if ORDER_KEY in keys:
+                if g2 is None:
+                    g2 = canon_order(f2)
+                ok = bisim(model, canon_order(a), g2)
+            else:
+                ok = bisim(model, a, f2)
+            if ok:
+                return list(keys)
+    return None
+
+
+# ---------------------------------------------------------------- structural causes in the exported table
+import re as _re
+
+SPREAD_HDR = _re.compile(r"^webhook\.headers\.(\d+)\.(\d+)$")
+EDGE_HDR = _re.compile(r"^edges\.(\d+)\.")
+PADDING_MESSAGES = ("To merge rows", "number of destinations", "does not support default exits")
 
 
 def group_split_without_cases(flow):
     return any((n.get("router") or {}).get("operand") == "@contact.groups" and not n["router"].get("cases") for n in flow["nodes"])
 
 
-def webhook_with_headers(flow):
-    return any(a.get("type") == "call_webhook" and a.get("headers") for n in flow["nodes"] for a in n.get("actions", []))
+def padded(table):
+    """some row of the exported sheet leaves the cells of a second (third, ...) edge all blank"""
+    if not table:
+        return False
+    h = table[0]
+    idx = {}
+    for i, x in enumerate(h):
+        m = EDGE_HDR.match(x)
+        if m and int(m.group(1)) > 1:
+            idx.setdefault(int(m.group(1)), []).append(i)
+    return any(all(row[i] == "" for i in cols) for row in table[1:] for cols in idx.values())
 
 
-def split_with_result_name(flow):
-    """a router that does not wait (split_by_value / split_by_group / split_random) and saves a result"""
+def spread_headers(table):
+    """webhook headers written over webhook.headers.<i>.<j> columns, filled in some row"""
+    if not table:
+        return False
+    cols = [i for i, x in enumerate(table[0]) if SPREAD_HDR.match(x)]
+    return any(row[i] != "" for row in table[1:] for i in cols)
+
+
+def clean_rows(table, unpad, pack):
+    """the exported rows as dicts, without the cells of all-blank trailing edges (unpad) / with the
+    spread webhook header cells packed into one webhook.headers cell (pack): the sheet the exporter
+    would have written without that cause"""
+    from rpft.parsers.common.cellparser import CellParser
+
+    h = table[0]
+    out = []
+    for row in table[1:]:
+        d = dict(zip(h, row))
+        if unpad:
+            by_n = {}
+            for k in h:
+                m = EDGE_HDR.match(k)
+                if m:
+                    by_n.setdefault(int(m.group(1)), []).append(k)
+            for n in sorted(by_n, reverse=True):
+                if n > 1 and all(d.get(k, "") == "" for k in by_n[n]):
+                    for k in by_n[n]:
+                        d.pop(k, None)
+                else:
+                    break
+        if pack:
+            pairs = {}
+            first = None
+            for k in h:
+                m = SPREAD_HDR.match(k)
+                if m:
+                    first = first or k
+                    if d.get(k, "") != "":
+                        pairs.setdefault(int(m.group(1)), {})[int(m.group(2))] = d[k]
+            if first is not None:
+                packed = CellParser().join_from_lists([[p.get(1, ""), p.get(2, "")] for _, p in sorted(pairs.items())]) if pairs else ""
+                d = {("webhook.headers" if k == first else k): (packed if k == first else v) for k, v in d.items() if k == first or not SPREAD_HDR.match(k)}
+        out.append(d)
+    return out
+
+
+def recompile_rows(doc, rows_by_flow):
+    """compile row dicts (one list per flow) with the real FlowParser -> run_cli_mode tuple"""
+    import tablib
+    from rpft.parsers.common.cellparser import CellParser
+    from rpft.parsers.common.rowparser import RowParser
+    from rpft.parsers.common.sheetparser import SheetParser
+    from rpft.parsers.creation.flowparser import FlowParser
+    from rpft.parsers.creation.flowrowmodel import FlowRowModel
+    from rpft.rapidpro.models.containers import RapidProContainer
+
+    def go():
+        container = RapidProContainer(groups=[])
+        for f in doc["flows"]:
+            sp = SheetParser(RowParser(FlowRowModel, CellParser()), tablib.Dataset(headers=["type"]), {}, include_column="include_if")
+            sp.input_rows = [(d, i + 2) for i, d in enumerate(rows_by_flow[f["name"]])]
+            sp.iterator = iter(sp.input_rows)
+            FlowParser(container, f["name"], sheet_parser=sp).parse()
+        return container.render()
+
+    return run_cli_mode(go)
+
+
+def reachable_nodes(flow):
+    by = {n["uuid"]: n for n in flow["nodes"]}
+    if not flow["nodes"]:
+        return set()
+    seen, todo = set(), [flow["nodes"][0]["uuid"]]
+    while todo:
+        u = todo.pop()
+        if u in seen or u not in by:
+            continue
+        seen.add(u)
+        todo += [e.get("destination_uuid") for e in by[u]["exits"] if e.get("destination_uuid")]
+    return seen
+
+
+def grouping(flow):
+    """node id -> actions, for the nodes that can be reached from the entry node.  A node nothing leads to has no
+    behaviour and no place in a sheet (every row hangs off an earlier row or `start`); demanding that the exporter
+    keeps it would ask more than the property states (false alarm corrected, see DESIGN 10.1)."""
+    reach = reachable_nodes(flow)
+    return sorted((n["uuid"], json.dumps([flowutil.canon_action(a) for a in n.get("actions", [])], sort_keys=True))
+                  for n in flow["nodes"] if n["uuid"] in reach)
+
+
+def ref_uuids(flow):
+    """group / flow uuids referenced by the nodes that can be reached from the entry node (same restriction as
+    `grouping`: an unreachable node has no row, so its references have no cell either)"""
+    reach = reachable_nodes(flow)
+    out = set()
     for n in flow["nodes"]:
+        if n["uuid"] not in reach:
+            continue
+        for a in n.get("actions", []):
+            for g in a.get("groups", []) or []:
+                out.add(("group", g.get("name"), g.get("uuid")))
+            if isinstance(a.get("flow"), dict):
+                out.add(("flow", a["flow"].get("name"), a["flow"].get("uuid")))
         r = n.get("router")
-        if r and r.get("result_name") and "wait" not in r and not n.get("actions"):
-            return True
-    return False
-
-
-def only_case_order_differs(f, g):
-    def sigs(flow, ordered):
-        out = []
-        for n in flow["nodes"]:
-            r = n.get("router")
-            if r and r["type"] == "switch":
-                cats = {c["uuid"]: c["name"] for c in r["categories"]}
-                cs = [(k["type"], json.dumps(k["arguments"][1:] if k["type"] == "has_group" else k["arguments"]), cats.get(k["category_uuid"])) for k in r["cases"]]
-                out.append((r["operand"], tuple(cs if ordered else sorted(cs, key=str))))
-            elif r:
-                names = [c["name"] for c in r["categories"]]
-                out.append(("random", tuple(names if ordered else sorted(names))))
-        return sorted(out, key=str)
-    return sigs(f, False) == sigs(g, False) and sigs(f, True) != sigs(g, True)
+        for k in (r or {}).get("cases", []):
+            if k["type"] == "has_group":
+                out.add(("group", k["arguments"][1] if len(k["arguments"]) > 1 else None, k["arguments"][0]))
+    return out
 
 
 def split_only_groups(flow):
@@ -149,74 +399,6 @@ def not_expressible(flow):
             for k in n["router"].get("cases", []) for c in n["router"]["categories"])
 
 
-def padded(table):
-    """the exported sheet has a second edge column and a row that leaves it blank while being
-    a go_to row or a row merged into the previous row's node (same _nodeId)"""
-    if not table:
-        return False
-    h = table[0]
-    if "edges.2.from" not in h:
-        return False
-    ti, ni = h.index("type"), (h.index("_nodeId") if "_nodeId" in h else None)
-    ecols = [i for i, x in enumerate(h) if x.startswith("edges.") and not x.startswith("edges.1.")]
-    prev_nid = None
-    for row in table[1:]:
-        blank2 = all(row[i] == "" for i in ecols)
-        if row[ti] in ("go_to", "no_op", "hard_exit", "loose_exit") and blank2:
-            return True
-        if ni is not None and row[ni] and row[ni] == prev_nid and blank2:
-            return True
-        prev_nid = row[ni] if ni is not None else None
-    return False
-
-
-def webhook_body_lost(flow, f2):
-    """some call_webhook action of `flow` has a body and comes back with a blank one"""
-    def hooks(f):
-        return [a for n in f["nodes"] for a in n.get("actions", []) if a.get("type") == "call_webhook"]
-    a, b = hooks(flow), hooks(f2)
-    return any(x.get("body") for x in a) and len(a) == len(b) and any(x.get("body") and not y.get("body") for x, y in zip(
-        sorted(a, key=lambda h: (h.get("url", ""), h.get("result_name", ""))), sorted(b, key=lambda h: (h.get("url", ""), h.get("result_name", "")))))
-
-
-def reachable_nodes(flow):
-    by = {n["uuid"]: n for n in flow["nodes"]}
-    if not flow["nodes"]:
-        return set()
-    seen, todo = set(), [flow["nodes"][0]["uuid"]]
-    while todo:
-        u = todo.pop()
-        if u in seen or u not in by:
-            continue
-        seen.add(u)
-        todo += [e.get("destination_uuid") for e in by[u]["exits"] if e.get("destination_uuid")]
-    return seen
-
-
-def grouping(flow):
-    """node id -> actions, for the nodes that can be reached from the entry node.  A node nothing leads to has no
-    behaviour and no place in a sheet (every row hangs off an earlier row or `start`); demanding that the exporter
-    keeps it would ask more than the property states (false alarm corrected, see DESIGN 10.1)."""
-    reach = reachable_nodes(flow)
-    return sorted((n["uuid"], json.dumps([flowutil.canon_action(a) for a in n.get("actions", [])], sort_keys=True))
-                  for n in flow["nodes"] if n["uuid"] in reach)
-
-
-def ref_uuids(flow):
-    out = set()
-    for n in flow["nodes"]:
-        for a in n.get("actions", []):
-            for g in a.get("groups", []) or []:
-                out.add(("group", g.get("name"), g.get("uuid")))
-            if isinstance(a.get("flow"), dict):
-                out.add(("flow", a["flow"].get("name"), a["flow"].get("uuid")))
-        r = n.get("router")
-        for k in (r or {}).get("cases", []):
-            if k["type"] == "has_group":
-                out.add(("group", k["arguments"][1] if len(k["arguments"]) > 1 else None, k["arguments"][0]))
-    return out
-
-
 def judge(ctx, doc, nontrivial, samples, label):
     v, m, rng = ctx.v, ctx.model, ctx.rng
     flow = doc["flows"][0]
@@ -234,58 +416,67 @@ def judge(ctx, doc, nontrivial, samples, label):
         rep = dict(flow=doc, format=fmt, strip_uuids=strip, numbered=numbered)
         table = (r[3] if r[0] == "err" else r[2]) or {}
         tbl = table.get(flow["name"])
-        is_padded = bool(tbl and padded(tbl))
 
         def fail(kind, summary, key=None):
             v.failing_input(key or kind, f"[{fmt}, strip_uuids={strip}, numbered={numbered}] " + summary, rep)
 
-        if r[0] != "ok":
-            if r[1].startswith("export:"):
-                key = "group-split-without-cases" if ("IndexError" in r[1] and group_split_without_cases(flow)) else None
-                fail("export-fails", f"flows_to_sheets fails: {r[1]} {r[2][:150]}", key)
+        if r[0] != "ok" and r[1].startswith("export:"):
+            # no sheet at all: the one listed cause is precise (the exception AND the input class)
+            key = "group-split-without-cases" if ("IndexError" in r[1] and group_split_without_cases(flow)) else None
+            fail("export-fails", f"flows_to_sheets fails: {r[1]} {r[2][:150]}", key)
+            continue
+
+        # ---- behaviour: as exported, then with the structural causes removed from the exported table
+        f2 = r[1]["flows"][0] if r[0] == "ok" else None
+        keys = explain(m, flow, f2, tbl) if f2 is not None else None
+        structural = []
+        if keys is None and tbl:
+            # a cause is accepted only if it is present in the table, the sheet without it compiles to something the
+            # listed losses explain and - when the sheet as exported does not compile - the message is the one it produces
+            raw_msg = None if r[0] == "ok" else f"{r[1]} {r[2]}"
+            present = [c for c, there in (("padded-edge-columns", padded(tbl)), ("webhook-headers", spread_headers(tbl))) if there]
+            tries = [[c] for c in present] + ([present] if len(present) == 2 else [])
+            for cs in tries:
+                if raw_msg is not None and not (("padded-edge-columns" in cs and any(x in raw_msg for x in PADDING_MESSAGES))
+                                                or ("webhook-headers" in cs and "AssertionError" in raw_msg)):
+                    continue
+                if raw_msg is None and cs != ["padded-edge-columns"]:
+                    continue          # spread header columns never compile
+                rr = recompile_rows(doc, {flow["name"]: clean_rows(tbl, "padded-edge-columns" in cs, "webhook-headers" in cs)})
+                if rr[0] != "ok":
+                    continue
+                g2 = rr[1]["flows"][0]
+                k2 = explain(m, flow, g2, tbl)
+                if k2 is not None:
+                    structural, keys, f2 = cs, k2, g2
+                    break
+        if keys is None:
+            if f2 is None:
+                fail("exported-sheet-does-not-compile", f"the exported sheet does not compile: {r[1]} {r[2][:150]}")
             else:
-                key = None
-                if is_padded and ("To merge rows" in r[2] or "number of destinations" in r[2] or "does not support default exits" in r[2]):
-                    key = "padded-edge-columns"
-                elif "AssertionError" in r[1] and webhook_with_headers(flow):
-                    key = "webhook-headers"
-                fail("exported-sheet-does-not-compile", f"the exported sheet does not compile: {r[1]} {r[2][:150]}", key)
+                tr = flowutil.distinguishing_trace(flow, f2)
+                if tr is None and m:
+                    ctx.disagree("checker rejects round trip but no distinguishing sequence found", rep, "0", "")
+                fail("round-trip-changes-behaviour", f"sequence {tr!r} separates the flow from its exported-and-recompiled form "
+                     "(not explained by the listed losses)")
             continue
-        f2 = r[1]["flows"][0]
-        if m:
-            ok = m.ask("(6 2 %s %s)" % (flowutil.flow_sexp(flow), flowutil.flow_sexp(f2))) == "1"
-            tr = None if ok else flowutil.distinguishing_trace(flow, f2)
-            if not ok and tr is None:
-                ctx.disagree("checker rejects round trip but no distinguishing sequence found", rep, "0", "")
-                continue
-        else:
-            tr = flowutil.distinguishing_trace(flow, f2)
-            ok = tr is None
-        if not ok:
-            key = None
-            if webhook_body_lost(flow, f2) and "call_webhook" in str(tr[-1]):
-                key = "webhook-body-shadowed"
-            elif unconnected_case(flow):
-                key = "unconnected-non-default-category"
-            elif is_padded:
-                key = "padded-edge-columns"
-            elif shared_category(flow) and "decision signatures differ" in str(tr[-1]):
-                key = "cases-sharing-a-category"
-            elif split_with_result_name(flow):
-                key = "split-result-name-lost"
-            elif only_case_order_differs(flow, f2):
-                key = "case-order-follows-row-order"
-            fail("round-trip-changes-behaviour", f"sequence {tr!r} separates the flow from its exported-and-recompiled form", key)
-            continue
+        ref = apply_losses(flow, tbl, keys)
+        if structural or keys:
+            why = flowutil.distinguishing_trace(flow, r[1]["flows"][0]) if r[0] == "ok" else f"the exported sheet does not compile: {r[1]} {r[2][:150]}"
+            for k in structural + keys:
+                fail("round-trip-changes-behaviour", f"{why!r}; explained by the listed losses {structural + keys}", k)
+        # ---- identifiers (against the original with the explained losses applied)
         if not strip:
-            if grouping(flow) != grouping(f2):
+            if grouping(ref) != grouping(f2):
                 fail("node-ids-or-grouping-not-preserved", "node identifiers / grouping of actions into nodes differ after the round trip")
                 continue
-            if ref_uuids(flow) != ref_uuids(f2):
-                diff = ref_uuids(flow) ^ ref_uuids(f2)
+            if ref_uuids(ref) != ref_uuids(f2):
+                diff = ref_uuids(ref) ^ ref_uuids(f2)
                 key = "group-uuid-only-in-split-case" if all(x[0] == "group" and x[1] in split_only_groups(flow) for x in diff) else None
                 fail("group-or-flow-uuids-not-preserved", f"group/flow uuids differ after the round trip: {sorted(diff, key=str)[:4]}", key)
                 continue
+        if structural or keys:
+            continue
         ctx.count("round_trips_ok")
         ctx.count(f"ok_{fmt}_{'strip' if strip else 'keep'}_{'num' if numbered else 'names'}")
         if len(flow["nodes"]) >= 3 and any("router" in n for n in flow["nodes"]):
@@ -308,6 +499,90 @@ def fixture_docs():
     return out
 
 
+# ---------------------------------------------------------------- C04's own input streams
+# tests with one argument that the sheet format expresses (condition_type + condition) and that the
+# shared sheet generator does not use: a foreign touch on compiled flows
+ONE_ARG_TESTS = ["all_words", "has_beginning", "has_date_eq", "has_date_gt", "has_date_lt", "has_district", "has_number_gt",
+                 "has_number_gte", "has_number_lte", "has_only_phrase", "has_phone", "has_pattern"]
+
+
+def retype_cases(rng, flow):
+    """some one-argument tests of plain switch routers get another one-argument test type (has_phone with its
+    optional country code among them); never two equal tests in one router"""
+    n_changed = 0
+    for n in flow["nodes"]:
+        r = n.get("router")
+        if not r or node_kind(n) != "switch" or r.get("operand") == "@contact.groups":
+            continue
+        for k in r["cases"]:
+            if len(k["arguments"]) == 1 and rng.random() < 0.3:
+                t = rng.choice(ONE_ARG_TESTS)
+                args = [rng.choice(["RW", "KE", "US"])] if t == "has_phone" else k["arguments"]
+                if not any(o is not k and o["type"] == t and o["arguments"] == args for o in r["cases"]):
+                    k["type"], k["arguments"] = t, args
+                    n_changed += 1
+    return n_changed
+
+
+def clash_sheet(rng):
+    """directed shape: a node with several actions whose readable row name (that of its first action) is also the
+    readable name of another node, in front of a join; also the shapes of the listed findings in small"""
+    base = rng.choice(["Please choose an option", "Welcome to the service", "0123456789abcdefXYZ", "same words here now", "Your answer was saved"])
+    h = ["row_id", "type", "from", "condition", "message_text", "node_name", "save_name"]
+    rows = [dict(row_id="1", type=rng.choice(["wait_for_response", "wait_for_response", "split_by_value"]), **{"from": "start"})]
+    if rows[0]["type"] == "split_by_value":
+        rows[0]["message_text"] = "@fields.choice"
+    k = rng.choice([2, 2, 3])
+    a_rows, rid = [], 2
+    for i in range(k):
+        if i == 0 or rng.random() < 0.5:
+            a_rows.append(dict(row_id=str(rid), type="send_message", message_text=base + ("" if i == 0 else f" again {i}"), node_name="nA"))
+        else:
+            a_rows.append(dict(row_id=str(rid), type="save_value", message_text=f"v{i}", save_name=f"field {i}", node_name="nA"))
+        a_rows[-1]["from"] = "1" if i == 0 else str(rid - 1)
+        if i == 0:
+            a_rows[-1]["condition"] = "a"
+        rid += 1
+    b_row = dict(row_id=str(rid), type="send_message", message_text=base + rng.choice(["", " two", " (b)"]), condition="b", **{"from": "1"})
+    rid += 1
+    branches = [a_rows, [b_row]]
+    ends = [a_rows[-1]["row_id"], b_row["row_id"]]
+    if rng.random() < 0.4:
+        c_row = dict(row_id=str(rid), type="send_message", message_text=rng.choice([base, "other text"]), condition="c", **{"from": "1"})
+        rid += 1
+        branches.append([c_row])
+        if rng.random() < 0.5:
+            ends.append(c_row["row_id"])
+    rng.shuffle(branches)
+    for b in branches:
+        rows += b
+    rng.shuffle(ends)
+    rows.append(dict(row_id=str(rid), type="send_message", message_text="join", **{"from": ";".join(ends)}))
+    rid += 1
+    if rng.random() < 0.5:
+        rows.append(dict(row_id=str(rid), type="send_message", message_text=rng.choice([base, "tail"]), **{"from": str(rid - 1)}))
+    return h, rows
+
+
+def directed_docs():
+    """the replay sheets of findings.d/C04.json (open and fixed alike): every listed class is exercised in every run"""
+    here = os.path.dirname(os.path.dirname(os.path.abspath(__file__)))
+    out = []
+    try:
+        fs = json.load(open(os.path.join(here, "findings.d", "C04.json")))["findings"]
+    except (OSError, ValueError, KeyError):
+        return out
+    for f in fs:
+        sh = (f.get("replay") or {}).get("sheet")
+        if not sh or "edges.1.from" in sh[0]:
+            continue   # (a replay given as the exported sheet is not a source)
+        rows = [dict(zip(sh[0], r)) for r in sh[1:]]
+        r = flowutil.compile_workbook(flowutil.single_flow_workbook("f1", sh[0], rows))
+        if r[0] == "ok":
+            out.append((f["key"], r[1]))
+    return out
+
+
 def run(ctx):
     thorough = ctx.tier == "thorough"
     n = (4000 if thorough else 260) * ctx.scale
@@ -315,38 +590,57 @@ def run(ctx):
     for d in fixture_docs()[: (100 if thorough else 12)]:
         ctx.count("src_fixture")
         judge(ctx, d, nontrivial, samples, "fixture")
+    for key, d in directed_docs():
+        ctx.count("src_directed")
+        judge(ctx, d, nontrivial, samples, "directed:" + key)
     for i in range(n):
         rng = ctx.rng
         x = rng.random()
-        if x < 0.5:
+        if x < 0.45:
             rows, g = sheetgen.gen_core_sheet(rng, rng.choice([2, 4, 7, 12]), wf=True, special_text=rng.random() < 0.7)
             label = "compiled-core"
-        elif x < 0.65:
+        elif x < 0.6:
             rows, g = sheetgen.gen_merge_sheet(rng, rng.choice([2, 5, 8]), special_text=rng.random() < 0.5)
             label = "compiled-merge"
-        else:
+        elif x < 0.9:
             g = sheetgen.SugarGen(rng, wf=True, special_text=rng.random() < 0.5, ctxvars=tuple(CTX))
             rows = sheetgen.flatten_sugared(g.gen_tree(rng.choice([3, 5, 8])))
             label = "compiled-sugared"
-        if not rows:
-            continue
-        headers, cells = sheetgen.render_sheet(rows, rng)
+        else:
+            rows, label = None, "compiled-name-clash"
+        if label == "compiled-name-clash":
+            headers, cells = clash_sheet(rng)
+        else:
+            if not rows:
+                continue
+            headers, cells = sheetgen.render_sheet(rows, rng)
         r = flowutil.compile_workbook(flowutil.template_workbook("f1", headers, cells, CTX))
         if r[0] != "ok":
             ctx.count("source_sheet_rejected")
             continue
         ctx.count("src_" + label)
+        if rng.random() < 0.25:
+            ctx.count("cases_retyped", retype_cases(rng, r[1]["flows"][0]))
         judge(ctx, r[1], nontrivial, samples, label)
     ctx.v.coverage["programs"] = ctx.stats.get("round_trips_ok", 0)
     ctx.v.coverage["disagreements_checked"] = len(ctx.disagreements) + sum(ctx.v.viol_by_key.values()) + sum(ctx.v.known_hits.values())
     ctx.v.coverage["distinct_nontrivial"] = len(nontrivial)
     ctx.v.coverage["samples"] = samples or [dict(note="no successful round trip in this run")]
     ctx.v.coverage["rule"] = (
-        "flows = the repository's fixture exports + flows compiled from generated sheets (core vocabulary, merged rows, sugar), "
+        "flows = the repository's fixture exports + the replay sheets of findings.d/C04.json + flows compiled from generated sheets "
+        "(core vocabulary, merged rows, sugar, a directed shape with equal readable row names in front of a join; a quarter of them "
+        "with one-argument tests retyped to tests the sheet generator does not use, has_phone with a country code among them), "
         "texts with | ; \\\\ , quotes, newlines, non-ASCII; each exported with flows_to_sheets to csv/xlsx with/without "
-        "strip_uuids/numbered, read back by the real reader, recompiled by FlowParser and compared by the Coq-verified checker; "
+        "strip_uuids/numbered, read back by the real reader, recompiled by FlowParser and compared by the Coq-verified checker. "
+        "A failing round trip counts as a listed finding only when the recompiled flow is behaviourally equal (same checker) to the "
+        "original with exactly the losses of the listed findings applied, and only the losses that were needed are reported; "
+        "a sheet that does not compile because of a listed structural cause (blank padded edge cells, spread webhook header "
+        "columns: exact message and cause present in the table) is compiled again without that cause and judged the same way; "
+        "anything else is an unlisted violation. "
         "non-trivial = distinct (exits, actions) shape with >= 3 nodes and a router, per format/strip setting")
-    ctx.v.assumptions += ["flows come from the compiler and the fixtures; foreign exports with pass-through action kinds are outside the sheet vocabulary"]
+    ctx.v.assumptions += ["flows come from the compiler and the fixtures; foreign exports with pass-through action kinds are outside the sheet vocabulary",
+                          "comparison modulo the order of a router's tests is used only to attribute a failure to the listed finding "
+                          "case-order-follows-row-order; a round trip that passes is compared with the order as it is"]
 
 
 def replay(rep):
